@@ -131,10 +131,11 @@ fn check_text(st: &mut Stats, what: &str, out: &str, spec: &CmdSpec, ctx: &dyn F
 
 fn check_visibility(st: &mut Stats, c: &CmdSpec, help: &str, long: bool, hide_pv: bool, ctx: &dyn Fn() -> String) {
     let mode = if long { "long" } else { "short" };
-    if c.help_template.is_some() {
-        return;
+    // a custom template chooses what is listed; what is hidden stays hidden under any template
+    let custom = c.help_template.is_some();
+    if custom {
+        st.count("hidden.custom-template-pages");
     }
-    // sections part: everything after the first usage block
     for a in &c.args {
         if matches!(a.act(), Act::Help | Act::HelpShort | Act::HelpLong | Act::Version) {
             continue;
@@ -146,7 +147,9 @@ fn check_visibility(st: &mut Stats, c: &CmdSpec, help: &str, long: bool, hide_pv
         } else {
             None
         };
-        if shown(a, long) {
+        if shown(a, long) && custom {
+            // only the hidden possible values below
+        } else if shown(a, long) {
             match &marker {
                 Some(m) => {
                     st.count("visible.checked");
@@ -200,6 +203,19 @@ fn check_visibility(st: &mut Stats, c: &CmdSpec, help: &str, long: bool, hide_pv
                 }
             }
         }
+        // hidden for this mode only (hide_short_help / hide_long_help): an option that no rule can make
+        // required is not in the usage line either, so its long must not occur
+        if !a.hide && !shown(a, long) && !a.is_positional() && !maybe_required(c, a) {
+            if let Some(l) = &a.long {
+                st.count("hidden.mode-hidden-option-checked");
+                let m = format!("--{}", l);
+                if help.contains(m.as_str()) {
+                    let line = help.lines().find(|l| l.contains(m.as_str())).unwrap_or("");
+                    st.violation(format!("c12:mode-hidden-arg-shown:{}", mode), format!("{} ({}) appears in {} help, line {:?} | {}", a.id, m, mode, line, ctx()));
+                    return;
+                }
+            }
+        }
         // hidden possible values of any argument never appear
         if let Some(Vp::Possible(pvs)) = &a.vp {
             for p in pvs.iter().filter(|p| p.hide) {
@@ -218,7 +234,7 @@ fn check_visibility(st: &mut Stats, c: &CmdSpec, help: &str, long: bool, hide_pv
                 st.violation("c12:hidden-subcommand-shown", format!("{} in {} help | {}", s.name, mode, ctx()));
                 return;
             }
-        } else if !flatten {
+        } else if !flatten && !custom {
             st.count("visible.subcommand-checked");
             if !help.contains(s.name.as_str()) {
                 st.violation(format!("c12:visible-subcommand-missing:{}", mode), format!("{} not in {} help | {}", s.name, mode, ctx()));
